@@ -8,27 +8,48 @@ def docsOf (g : Graph) (r : Id) : List DocRef :=
   | some n => n.docRefs
   | none => []
 
-/-- what `parse_data_types_from_doc_ref` returns for a doc whose references denote `specDocs`: the
-data types, and the io types of the routes -/
+/-- what a doc read while the starting points are collected contributes, when its references denote
+`specDocs`: the data types and the routes it refers to -/
 def docStart (g : Graph) (ns : String) (refs : List DocRef) : List Id :=
-  (specDocs g ns refs).1 ++ (specDocs g ns refs).2.flatMap (ioOf g)
+  (specDocs g ns refs).1 ++ (specDocs g ns refs).2
+
+theorem mem_docStart {g : Graph} {ns : String} {refs : List DocRef} {b : Id} :
+    b ∈ docStart g ns refs ↔ b ∈ docTargets g ns refs := by
+  simp only [docStart, List.mem_append]
+  constructor
+  · rintro (h | h)
+    · exact (mem_specDocs_types.1 h).1
+    · exact (mem_specDocs_routes.1 h).1
+  · exact mem_docTargets_split
 
 def nsStart (g : Graph) (ns : String) : List Id :=
   match g.ns? ns with
   | some n => docStart g ns n.docRefs
   | none => []
 
-theorem parseDocTypes_spec {g : Graph} {ctx ns : String} {refs : List DocRef} {l : List Id}
-    (hp : parseDocs g ctx refs = .ok (specDocs g ns refs)) (h : parseDocTypes g ctx refs = .ok l) :
-    ∀ b, b ∈ l ↔ b ∈ docStart g ns refs := by
-  simp only [parseDocTypes, hp] at h
-  split at h
-  · simp at h
-  · rename_i io hio
-    have : (specDocs g ns refs).1 ++ io = l := by simpa using h
-    subst this
-    intro b
-    simp only [docStart, List.mem_append, List.mem_flatMap, (routesIo_ok hio).2 b]
+/-- every starting point a `Seeds` record holds -/
+def Seeds.all (s : Seeds) : List Id := s.types ++ s.docRoutes
+
+theorem mem_all_append {a b : Seeds} {x : Id} : x ∈ (a.append b).all ↔ x ∈ a.all ∨ x ∈ b.all := by
+  simp only [Seeds.all, Seeds.append, List.mem_append]
+  constructor
+  · rintro ((h | h) | (h | h))
+    · exact Or.inl (Or.inl h)
+    · exact Or.inr (Or.inl h)
+    · exact Or.inl (Or.inr h)
+    · exact Or.inr (Or.inr h)
+  · rintro ((h | h) | (h | h))
+    · exact Or.inl (Or.inl h)
+    · exact Or.inr (Or.inl h)
+    · exact Or.inl (Or.inr h)
+    · exact Or.inr (Or.inr h)
+
+theorem docSeeds_spec {g : Graph} {ctx ns : String} {refs : List DocRef} {s : Seeds}
+    (hp : parseDocs g ctx refs = .ok (specDocs g ns refs)) (h : docSeeds g ctx refs = .ok s) :
+    s.ids = [] ∧ ∀ b, b ∈ s.all ↔ b ∈ docStart g ns refs := by
+  simp only [docSeeds, hp, Except.ok.injEq] at h
+  subst h
+  exact ⟨rfl, fun b => by simp [Seeds.all, docStart]⟩
 
 /-- two lists of the same length, related element by element -/
 inductive Zip2 {α β : Type} (R : α → β → Prop) : List α → List β → Prop where
@@ -128,14 +149,14 @@ theorem canon_ids {g : Graph} (hwf : g.refsOk = true) {ns : String} {reprs : Lis
         rw [ih h4]
 
 theorem routeSeeds_spec {g : Graph} (hda : docsAgree g = true) {ns : String} {cr : List (String × Nat)}
-    {ts ids : List Id} (h : routeSeeds g ns cr = .ok (ts, ids)) :
-    Zip2 (fun c r => g.routeByName ns c.1 c.2 = some r) cr ids ∧
-    ∀ b, b ∈ ts ↔ ∃ r ∈ ids, b ∈ ioOf g r ∨ b ∈ docStart g ns (docsOf g r) := by
-  induction cr generalizing ts ids with
+    {s : Seeds} (h : routeSeeds g ns cr = .ok s) :
+    Zip2 (fun c r => g.routeByName ns c.1 c.2 = some r) cr s.ids ∧
+    ∀ b, b ∈ s.all ↔ ∃ r ∈ s.ids, b ∈ ioOf g r ∨ b ∈ docStart g ns (docsOf g r) := by
+  induction cr generalizing s with
   | nil =>
     simp only [routeSeeds] at h
     cases h
-    exact ⟨.nil, by simp⟩
+    exact ⟨.nil, by simp [Seeds.all]⟩
   | cons c cr ih =>
     obtain ⟨name, v⟩ := c
     simp only [routeSeeds] at h
@@ -149,48 +170,53 @@ theorem routeSeeds_spec {g : Graph} (hda : docsAgree g = true) {ns : String} {cr
         subst hnn
         split at h
         · simp at h
-        · rename_i dts hdts
+        · rename_i ds hds
           split at h
           · simp at h
-          · rename_i ts' ids' hrest
-            simp only [Except.ok.injEq, Prod.mk.injEq] at h
-            obtain ⟨h1, h2⟩ := h
-            subst h1 h2
+          · rename_i more hrest
+            simp only [Except.ok.injEq] at h
+            subst h
             obtain ⟨ih1, ih2⟩ := ih hrest
-            refine ⟨.cons hrt ih1, ?_⟩
-            intro b
             have hdoc := docsAgree_node hda hnd
             rw [hns] at hdoc
-            have hd := parseDocTypes_spec hdoc hdts b
+            obtain ⟨hd0, hd⟩ := docSeeds_spec hdoc hds
+            have hids : (({ types := io, ids := [rt] } : Seeds).append (ds.append more)).ids = rt :: more.ids := by
+              simp [Seeds.append, hd0]
+            refine ⟨by rw [hids]; exact Zip2.cons hrt ih1, ?_⟩
+            intro b
             have hio' := (routeIo_ok hio).2
-            simp only [List.mem_append, hd, ih2 b, List.mem_cons, hio']
+            rw [hids]
+            simp only [mem_all_append, hd b, ih2 b, List.mem_cons]
+            have hfirst : b ∈ ({ types := io, ids := [rt] } : Seeds).all ↔ b ∈ ioOf g rt := by
+              simp [Seeds.all, hio']
+            rw [hfirst]
             constructor
-            · rintro ((h | h) | ⟨r, hr, h⟩)
+            · rintro (h | h | ⟨r, hr, h⟩)
               · exact ⟨rt, Or.inl rfl, Or.inl h⟩
               · exact ⟨rt, Or.inl rfl, Or.inr (by simpa [docsOf, hnd] using h)⟩
               · exact ⟨r, Or.inr hr, h⟩
             · rintro ⟨r, rfl | hr, h⟩
               · rcases h with h | h
-                · exact Or.inl (Or.inl h)
-                · exact Or.inl (Or.inr (by simpa [docsOf, hnd] using h))
-              · exact Or.inr ⟨r, hr, h⟩
+                · exact Or.inl h
+                · exact Or.inr (Or.inl (by simpa [docsOf, hnd] using h))
+              · exact Or.inr (Or.inr ⟨r, hr, h⟩)
       · simp at h
       · simp at h
 
 /-- "Parse the route whitelist and populate any starting data types", at specification level -/
 theorem routeWhitelistSeeds_spec {g : Graph} (hwf : g.refsOk = true) (hda : docsAgree g = true)
-    {l : List (String × List String)} {c : List (String × List (String × Nat))} {rts ids : List Id}
-    (h1 : canonicalRoutes g l = .ok c) (h2 : routeWhitelistSeeds g c = .ok (rts, ids)) :
-    ids = l.flatMap (fun p => wlRouteIds g p.1 p.2) ∧ (∀ p ∈ l, ∃ n, g.ns? p.1 = some n) ∧
-    ∀ b, b ∈ rts ↔ ∃ p ∈ l, b ∈ nsStart g p.1 ∨
+    {l : List (String × List String)} {c : List (String × List (String × Nat))} {s : Seeds}
+    (h1 : canonicalRoutes g l = .ok c) (h2 : routeWhitelistSeeds g c = .ok s) :
+    s.ids = l.flatMap (fun p => wlRouteIds g p.1 p.2) ∧ (∀ p ∈ l, ∃ n, g.ns? p.1 = some n) ∧
+    ∀ b, b ∈ s.all ↔ ∃ p ∈ l, b ∈ nsStart g p.1 ∨
       ∃ r ∈ wlRouteIds g p.1 p.2, b ∈ ioOf g r ∨ b ∈ docStart g p.1 (docsOf g r) := by
-  induction l generalizing c rts ids with
+  induction l generalizing c s with
   | nil =>
     simp only [canonicalRoutes] at h1
     cases h1
     simp only [routeWhitelistSeeds] at h2
     cases h2
-    simp
+    simp [Seeds.all]
   | cons p l ih =>
     obtain ⟨ns, reprs⟩ := p
     simp only [canonicalRoutes] at h1
@@ -218,34 +244,33 @@ theorem routeWhitelistSeeds_spec {g : Graph} (hwf : g.refsOk = true) (hda : docs
           · simp at h2
           · split at h2
             · simp at h2
-            · rename_i ts ids0 hrs
+            · rename_i here hrs
               split at h2
               · simp at h2
-              · rename_i ts' ids' hrest
-                simp only [Except.ok.injEq, Prod.mk.injEq] at h2
-                obtain ⟨e1, e2⟩ := h2
-                subst e1 e2
+              · rename_i more hrest
+                simp only [Except.ok.injEq] at h2
+                subst h2
                 obtain ⟨i1, i2, i3⟩ := ih hc' hrest
                 obtain ⟨r1, r2⟩ := routeSeeds_spec hda hrs
+                obtain ⟨hd0, hd⟩ := docSeeds_spec (docsAgree_ns hda hn) hnsDoc
                 have hids := canon_ids hwf hcanon r1
-                refine ⟨by simp [List.flatMap_cons, hids, i1], ?_, ?_⟩
+                refine ⟨by simp [Seeds.append, hd0, List.flatMap_cons, hids, i1], ?_, ?_⟩
                 · intro p hp
                   rcases List.mem_cons.1 hp with rfl | hp
                   · exact ⟨n, hn⟩
                   · exact i2 p hp
                 · intro b
-                  have hd := parseDocTypes_spec (docsAgree_ns hda hn) hnsDoc b
-                  simp only [List.mem_append, hd, r2 b, i3 b, List.mem_cons, hids]
+                  simp only [mem_all_append, hd b, r2 b, i3 b, List.mem_cons, hids]
                   constructor
-                  · rintro ((h | h) | ⟨p, hp, h⟩)
+                  · rintro (h | h | ⟨p, hp, h⟩)
                     · exact ⟨(ns, reprs), Or.inl rfl, Or.inl (by simpa [nsStart, hn] using h)⟩
                     · exact ⟨(ns, reprs), Or.inl rfl, Or.inr h⟩
                     · exact ⟨p, Or.inr hp, h⟩
                   · rintro ⟨p, rfl | hp, h⟩
                     · rcases h with h | h
-                      · exact Or.inl (Or.inl (by simpa [nsStart, hn] using h))
-                      · exact Or.inl (Or.inr h)
-                    · exact Or.inr ⟨p, hp, h⟩
+                      · exact Or.inl (by simpa [nsStart, hn] using h)
+                      · exact Or.inr (Or.inl h)
+                    · exact Or.inr (Or.inr ⟨p, hp, h⟩)
     · simp at h1
     · simp at h1
 
@@ -268,13 +293,13 @@ theorem typeSeeds_spec {g : Graph} {ns : String} {names : List String} {ids : Li
 
 /-- "Parse the datatype whitelist and populate any starting data types", at specification level -/
 theorem datatypeWhitelistSeeds_spec {g : Graph} (hda : docsAgree g = true) {l : List (String × List String)}
-    {dts : List Id} (h : datatypeWhitelistSeeds g l = .ok dts) :
+    {s : Seeds} (h : datatypeWhitelistSeeds g l = .ok s) :
     (∀ p ∈ l, ∃ n, g.ns? p.1 = some n) ∧
-    ∀ b, b ∈ dts ↔ ∃ p ∈ l, b ∈ nsStart g p.1 ∨ b ∈ p.2.flatMap (fun t => (g.typeByName p.1 t).toList) := by
-  induction l generalizing dts with
+    ∀ b, b ∈ s.all ↔ ∃ p ∈ l, b ∈ nsStart g p.1 ∨ b ∈ p.2.flatMap (fun t => (g.typeByName p.1 t).toList) := by
+  induction l generalizing s with
   | nil =>
     simp only [datatypeWhitelistSeeds] at h
-    cases h; simp
+    cases h; simp [Seeds.all]
   | cons p l ih =>
     obtain ⟨ns, names⟩ := p
     simp only [datatypeWhitelistSeeds] at h
@@ -285,28 +310,30 @@ theorem datatypeWhitelistSeeds_spec {g : Graph} (hda : docsAgree g = true) {l : 
       · simp at h
       · rename_i nsDoc hnsDoc
         split at h
-        · rename_i a b' ha hb
+        · rename_i a more ha hb
           cases h
           obtain ⟨i1, i2⟩ := ih hb
           have ht := typeSeeds_spec ha
+          obtain ⟨_, hd⟩ := docSeeds_spec (docsAgree_ns hda hn) hnsDoc
           refine ⟨?_, ?_⟩
           · intro p hp
             rcases List.mem_cons.1 hp with rfl | hp
             · exact ⟨n, hn⟩
             · exact i1 p hp
           · intro b
-            have hd := parseDocTypes_spec (docsAgree_ns hda hn) hnsDoc b
-            simp only [List.mem_append, hd, i2 b, List.mem_cons, ht]
+            subst ht
+            have hmid : ∀ (l : List Id), b ∈ ({ types := l } : Seeds).all ↔ b ∈ l := by intro l; simp [Seeds.all]
+            simp only [mem_all_append, hd b, i2 b, List.mem_cons, hmid]
             constructor
-            · rintro ((h | h) | ⟨p, hp, h⟩)
+            · rintro (h | h | ⟨p, hp, h⟩)
               · exact ⟨(ns, names), Or.inl rfl, Or.inl (by simpa [nsStart, hn] using h)⟩
               · exact ⟨(ns, names), Or.inl rfl, Or.inr h⟩
               · exact ⟨p, Or.inr hp, h⟩
             · rintro ⟨p, rfl | hp, h⟩
               · rcases h with h | h
-                · exact Or.inl (Or.inl (by simpa [nsStart, hn] using h))
-                · exact Or.inl (Or.inr h)
-              · exact Or.inr ⟨p, hp, h⟩
+                · exact Or.inl (by simpa [nsStart, hn] using h)
+                · exact Or.inr (Or.inl h)
+              · exact Or.inr (Or.inr ⟨p, hp, h⟩)
         · simp at h
         · simp at h
 
